@@ -134,6 +134,13 @@ Record fk_params := {
       ntr_tap=ntr_tap, lagc=lagc, collection=None, kfilt=kfilt) *)
 Definition fk_forward (p : fk_params) : fk_params := p.
 
+(* fk argument guards: `assert vbounds` (None / empty -> AssertionError; id -1 = None) and
+   btype.lower() in {'highpass','hp'} (code 0) / {'lowpass','lp'} (code 1); any other string leaves
+   fk_att unbound (UnboundLocalError).  With a non-empty collection every per-group call raises;
+   an empty collection runs no call at all and returns zeros. *)
+Definition fk_args_ok (p : fk_params) : bool :=
+  (((f_btype p =? 0) || (f_btype p =? 1)) && negb (f_vbounds p =? -1))%Z.
+
 (* the recursive calls made for a collection: (label, selected rows, settings) *)
 Definition group_calls {P} (fwd : P) (coll : list Z) : list (Z * list nat * P) :=
   map (fun c => (c, positions c coll 0, fwd)) (np_unique coll).
@@ -147,6 +154,9 @@ Definition fk_calls (p : fk_params) (coll : list Z) := group_calls (fk_forward p
    version code: 1 -> NP1, 0 -> 'NPultra', 2 -> any version with floor = 2. *)
 Definition adc_params (ver : Z) : Z * Z :=
   if (ver =? 2)%Z then (16, 16)%Z else (12, 13)%Z.      (* (adc_channels, n_cycles) *)
+(* any other version (neither 1 / 'NPultra' nor floor(version) = 2) leaves adc_channels unbound:
+   the call raises (UnboundLocalError) *)
+Definition adc_version_ok (ver : Z) : bool := ((ver =? 0) || (ver =? 1) || (ver =? 2))%Z.
 Definition adc_id (ver c : Z) : Z :=
   let ac := fst (adc_params ver) in (c / (ac * 2) * 2 + c mod 2)%Z.
 Definition adc_table (ver : Z) : list Z := map (adc_id ver) (zrange 384).
@@ -237,6 +247,13 @@ Section Numeric.
     match coll with
     | None => Some (base p x)
     | Some c => grouped [] zero_row (base (fk_forward p)) c x
+    end.
+  (* with the argument guards: None = the call raises *)
+  Definition fk_checked (base : fk_params -> mat -> mat) (p : fk_params)
+             (coll : option (list Z)) (x : mat) : option mat :=
+    match coll with
+    | Some [] => fk base p coll x
+    | _ => if fk_args_ok p then fk base p coll x else None
     end.
 
   (* ---------------- agc ---------------- *)
@@ -360,6 +377,13 @@ Section Numeric.
              (shifts : option (list R)) (labels : option (list Z)) (x : mat) : mat :=
     fold_left (apply_stage butter1 fshift1 interp spatial shifts labels)
               (stage_codes (match shifts with Some _ => true | None => false end) labels) x.
+  (* channel_labels=True: the labels are computed from the RAW input by detect_bad_channels
+     (before the temporal filter), then the call proceeds as with given labels;
+     channel_labels=False is the same as None *)
+  Definition destripe_detect (detect : mat -> list Z) (butter1 : vec -> vec) (fshift1 : R -> vec -> vec)
+             (interp : list Z -> mat -> mat) (spatial : mat -> mat)
+             (shifts : option (list R)) (x : mat) : mat :=
+    destripe butter1 fshift1 interp spatial shifts (Some (detect x)) x.
 End Numeric.
 
 (* the observable trace of destripe: (stage code, number of rows handed to the stage) *)
@@ -383,3 +407,7 @@ Definition round_half_even (a b : Z) : Z :=        (* round(a / b), b > 0 *)
   else if (b <? 2 * r)%Z then (q + 1)%Z
   else if Z.even q then q else (q + 1)%Z.
 Definition agc_nswin (p q : Z) : Z := (round_half_even p (2 * q) * 2 + 1)%Z.
+
+(* with channel_labels=True the trace starts with the detection stage (code 5) on all rows *)
+Definition destripe_trace_detect (nc : Z) (has_shift : bool) (detected : list Z) : list (Z * Z) :=
+  (5%Z, nc) :: destripe_trace nc has_shift (Some detected).
